@@ -2921,9 +2921,18 @@ static Type *struct_union_decl(Token **rest, Token *tok) {
 
   tok = skip(tok, "{");
 
+  // The tag is in scope in its own member list: 'struct S *next' must
+  // refer to this type, not to an S of an enclosing scope.
+  if (tag && !hashmap_get2(&scope->tags, tag->loc, tag->len)) {
+    ty->size = -1;
+    push_tag_scope(tag, ty);
+  }
+
   // Construct a struct object.
   struct_members(&tok, tok, ty);
   *rest = attribute_list(tok, ty);
+  if (ty->size < 0)
+    ty->size = 0;
 
   if (tag) {
     // If this is a redefinition, overwrite a previous type.
